@@ -143,6 +143,7 @@ type Exec struct {
 	dry         int
 	dryLoop     *LoopInfo
 	lenient     bool
+	utMemo      map[[2]int]*Object // elements of untracked sequences by (sequence object, index term)
 	lazy        bool // freshValue: pointers beyond the depth and sequences of non-scalars become lazy objects
 	lenientFailed bool
 	imported    map[*Object]*Object
@@ -816,6 +817,11 @@ func (x *Exec) step(fr *Frame, ins ssa.Instruction) {
 			x.obligeBounds(idx, bv.Len, i.Pos(), fr)
 			if bv.Obj == nil {
 				st.regs[i] = PtrV{Nil: True()}
+			} else if x.driver && x.isUntracked(bv) {
+				// An element of a sequence whose elements are not tracked: an unknown but fixed value per
+				// (sequence object, index term) — such objects are never written in place (append and loop
+				// havoc make new ones) —, so that reading ueList[i] twice gives the same UE.
+				st.regs[i] = PtrV{Obj: x.untrackedElem(bv, BvAdd(bv.Off, idx), i.Type().(*types.Pointer).Elem()), Nil: False()}
 			} else {
 				st.regs[i] = PtrV{Obj: bv.Obj, Path: []PathElem{{Field: -1, Idx: BvAdd(bv.Off, idx)}}, Nil: False()}
 			}
@@ -2032,6 +2038,26 @@ func (x *Exec) appendOp(fr *Frame, cc *ssa.CallCommon, args []Value, pos token.P
 		r.Nil = True()
 	}
 	return r
+}
+
+// untrackedElem: the (memoised) object holding element idx of an untracked sequence.
+func (x *Exec) untrackedElem(s SliceV, idx *Term, et types.Type) *Object {
+	if x.utMemo == nil {
+		x.utMemo = map[[2]int]*Object{}
+	}
+	k := [2]int{s.Obj.id, idx.id}
+	if o, ok := x.utMemo[k]; ok {
+		return o
+	}
+	o := x.newObject(et, s.Obj.Name+"[]")
+	o.Birth = -1
+	v := x.materialise(s.Obj.Name+"[]", et)
+	if _, isPtr := v.(PtrV); isPtr {
+		x.assumedCtr["elements of lists of symbolic length are non-nil pointers (no element invariants)"] = true
+	}
+	x.constObjs[o] = v
+	x.utMemo[k] = o
+	return o
 }
 
 func (x *Exec) isUntracked(s SliceV) bool {
